@@ -194,7 +194,8 @@ class Violin(object):
 
     def _compute(self):
         """ Compute stats """
-        data = self._data
+        # Stats are those of the finite values, as for the kde below
+        data = self._data.where(np.isfinite(self._data))
 
         # Compute stats
         self.stat_median = data.median()
